@@ -4,7 +4,7 @@ leading '. =', forward/backward skips; against the whole-program Lean model and 
 expectation the generator computes itself."""
 import json
 
-from . import impl, asmrun
+from . import impl, asmrun, polyrun
 from .p_c02 import trace_invariant
 from .gen import ProgramGen, render, Item
 from .insnrun import num
@@ -17,6 +17,9 @@ def run(ctx):
                 "K + sum k_i*(L_i - L_j) written directly, through intermediate symbols, with '>> 0', '<< k' and '/' of differences; "
                 "self-dependent variants (odd number of addresses), a second '.link', no '.link', a leading '. =', and '. =' skips of "
                 "-64..64 bytes. The expected base is computed from the label offsets of a reference assembly at a fixed base. "
+                "Second stream: random scripts over deferred.LinearPolynomial itself (list/dict constructor with duplicate and zero "
+                "coefficients, +, * by a known integer, unary -, promises settled with integers, other promises or polynomials, "
+                "_substitute_known, wait()) compared step by step with Model.Poly and with plain integer arithmetic. "
                 "distinct = distinct program texts; non-trivial = the link expression mentions at least one label")
     feat = {"linear": True, "skip": False, "export": 0.3, "repeat": True}
     n = 1200 if ctx.thorough else 250
@@ -193,6 +196,10 @@ def run(ctx):
             bad = m["outcome"]
         if bad:
             ctx.disagree("whole-program model (link base)", inp, {"outcome": m["outcome"], "base": m["base"], "diags": m["diags"][:5], "note": m.get("note")}, r.summary())
+
+
+    # the symbolic arithmetic itself (deferred.LinearPolynomial) against Model.Poly and against integer arithmetic
+    polyrun.poly_stream(ctx, ctx.rng("c12-poly"), 3000 if ctx.thorough else 600)
 
 
 def search(ctx, broken):
